@@ -68,7 +68,7 @@ impl Stream {
     }
 }
 
-pub trait Prop {
+pub trait Prop: Sync {
     fn id(&self) -> &'static str;
     fn rule(&self) -> &'static str;
     fn streams(&self) -> Vec<Stream>;
@@ -113,13 +113,16 @@ pub struct Cx {
     pub verbose: bool,
 }
 
-thread_local! {
-    static CONTEXT: RefCell<String> = RefCell::new(String::new());
-    static LAST_PANIC: RefCell<Option<(String, String)>> = RefCell::new(None);
+// Global (not thread-local): a share of the cases runs on a freshly spawned thread.
+static CONTEXT: std::sync::Mutex<String> = std::sync::Mutex::new(String::new());
+static LAST_PANIC: std::sync::Mutex<Option<(String, String)>> = std::sync::Mutex::new(None);
+
+fn lock<T>(m: &std::sync::Mutex<T>) -> std::sync::MutexGuard<'_, T> {
+    m.lock().unwrap_or_else(|e| e.into_inner())
 }
 
 pub fn set_context(text: String) {
-    CONTEXT.with(|c| *c.borrow_mut() = text);
+    *lock(&CONTEXT) = text;
 }
 
 impl Cx {
@@ -208,7 +211,7 @@ pub struct RunArgs {
 }
 
 pub fn last_panic() -> Option<(String, String)> {
-    LAST_PANIC.with(|c| c.borrow().clone())
+    lock(&LAST_PANIC).clone()
 }
 
 pub fn install_panic_hook() {
@@ -220,7 +223,7 @@ pub fn install_panic_hook() {
             .cloned()
             .or_else(|| info.payload().downcast_ref::<&str>().map(|s| s.to_string()))
             .unwrap_or_else(|| "?".to_string());
-        LAST_PANIC.with(|c| *c.borrow_mut() = Some((msg, loc)));
+        *lock(&LAST_PANIC) = Some((msg, loc));
     }));
 }
 
@@ -298,6 +301,8 @@ pub fn run(prop: &dyn Prop, args: &RunArgs) -> i32 {
         });
     }
 
+    let mut thread_hooks: Vec<u64> = vec![];
+    let mut fresh_cases: u64 = 0;
     let mut harness_errors: Vec<Value> = vec![];
     let mut truncated = false;
     let mut cases_run: u64 = 0;
@@ -344,16 +349,43 @@ pub fn run(prop: &dyn Prop, args: &RunArgs) -> i32 {
             cx.step = 0;
             cx.rng = Rng(mix(mix(args.seed, hstr(prop.id())), mix(hstr(st.name), idx)));
             set_context(String::new());
-            LAST_PANIC.with(|c| *c.borrow_mut() = None);
-            let res = {
+            *lock(&LAST_PANIC) = None;
+            // One case in four runs on a freshly spawned thread: every thread-local scratch buffer of the
+            // library (distance matrix, Jaccard sets, match vectors, registry) then starts from its initial
+            // capacity again, so growth paths are crossed thousands of times per run, with different pasts,
+            // instead of three times per process.
+            let case_seed = cx.rng.0;
+            let fresh_thread = args.tier != Tier::Miri && st.name != "corpus" && mix(case_seed, 0x7431) % 4 == 0;
+            let res = if fresh_thread {
+                let cxr = &mut cx;
+                let name = st.name;
+                let joined = std::thread::scope(|sc| {
+                    std::thread::Builder::new()
+                        .stack_size(16 << 20)
+                        .spawn_scoped(sc, move || {
+                            let r = panic::catch_unwind(panic::AssertUnwindSafe(|| prop.run(cxr, name, idx)));
+                            (r, hook_snapshot())
+                        })
+                        .expect("spawn case thread")
+                        .join()
+                });
+                fresh_cases += 1;
+                match joined {
+                    Ok((r, snap)) => {
+                        merge_hook_snapshot(&mut thread_hooks, &snap);
+                        r
+                    }
+                    Err(e) => Err(e),
+                }
+            } else {
                 let cxr = &mut cx;
                 panic::catch_unwind(panic::AssertUnwindSafe(|| prop.run(cxr, st.name, idx)))
             };
             case_started.store(0, Ordering::Relaxed);
             cases_run += 1;
             if res.is_err() {
-                let (msg, loc) = LAST_PANIC.with(|c| c.borrow_mut().take()).unwrap_or(("?".into(), "?".into()));
-                let context = CONTEXT.with(|c| c.borrow().clone());
+                let (msg, loc) = lock(&LAST_PANIC).take().unwrap_or(("?".into(), "?".into()));
+                let context = lock(&CONTEXT).clone();
                 if is_harness_location(&loc) {
                     harness_errors.push(json!({"case": format!("{}:{}", st.name, idx), "panic": msg, "at": loc, "context": context}));
                 } else {
@@ -373,9 +405,11 @@ pub fn run(prop: &dyn Prop, args: &RunArgs) -> i32 {
         }
     }
     // hook counters (only present in hook builds)
+    cx.counters.insert("cases run on a fresh thread".to_string(), fresh_cases);
     #[cfg(lucid_suggest_verif)]
     {
-        let snap = lucid_suggest_core::verif::snapshot();
+        let mut snap = hook_snapshot();
+        merge_hook_snapshot(&mut snap, &thread_hooks);
         let names = [
             "hook matrix accesses", "hook matrix max row", "hook matrix max col", "hook matrix max size",
             "hook matrix growths", "hook counter accesses", "hook counter max len", "hook cost accesses",
@@ -540,4 +574,32 @@ fn write_json_str(text: &str, out: &mut String) {
         }
     }
     out.push('"');
+}
+
+/// Hook counters of the calling thread (empty in builds without the hooks).
+pub fn hook_snapshot() -> Vec<u64> {
+    #[cfg(lucid_suggest_verif)]
+    {
+        lucid_suggest_core::verif::snapshot().to_vec()
+    }
+    #[cfg(not(lucid_suggest_verif))]
+    {
+        vec![]
+    }
+}
+
+/// Counters 1,2,3,6,8,10 are maxima, the others are sums (see rust/core/src/verif.rs).
+pub fn merge_hook_snapshot(into: &mut Vec<u64>, other: &[u64]) {
+    if into.len() < other.len() {
+        into.resize(other.len(), 0);
+    }
+    for (i, v) in other.iter().enumerate() {
+        if [1usize, 2, 3, 6, 8, 10].contains(&i) {
+            if *v > into[i] {
+                into[i] = *v;
+            }
+        } else {
+            into[i] += *v;
+        }
+    }
 }
